@@ -24,12 +24,15 @@ NInit == nh \in 1..Len(Hists) /\ npos = 1 /\ np = PInit(Hists[nh].cnt, Hists[nh]
 After(p, e) ==
   LET c == e[1]  ty == e[2] IN
   CASE ty = "inv" -> IF c \in Conns /\ PInvOk(p, c, e[3]) THEN {PInv(p, c, e[3], e[4])} ELSE {}
+    [] ty = "exec" /\ e[4] = 0 -> {p}     \* bus traffic of the daemon itself (scan), not a request
     [] ty = "exec" -> {PLin(p, k, TRUE) : k \in {k \in Conns : PLinOk(p, k, TRUE, e[4])}}
     [] ty = "resp" -> IF c \in Conns /\ PRespOk(p, c, e[3], e[4], e[5]) THEN {PResp(p, c, e[3])} ELSE {}
-    [] ty = "push" -> IF c \in Conns /\ PPushOk(p, c, e[4], e[5]) THEN {p} ELSE {}
+    [] ty = "push" -> IF c \in Conns /\ PPushOk(p, c, e[4], e[5]) THEN {PPush(p, c, e[4], e[5])} ELSE {}
     [] ty = "eof" -> IF c \in Conns /\ PEofOk(p, c) THEN {PClose(p, c, "eof")} ELSE {}
     [] ty = "close" -> IF c \in Conns THEN {PClose(p, c, "closed")} ELSE {}
-    [] ty \in {"tick", "senderr"} -> {p}
+    [] ty = "shut" -> IF c \in Conns /\ p.cst[c] = "open" THEN {PClose(p, c, "shut")} ELSE {}
+    [] ty = "tick" -> {PTick(p)}
+    [] ty = "senderr" -> {p}
     [] OTHER -> {}              \* blank, partial, hang, connfail: never allowed
 
 NEvent == /\ npos > 0 /\ npos <= Len(EvOf(nh))
@@ -49,5 +52,6 @@ Accepted == npos = 0 => PrintT(<<"VF", "ACC", nh>>)
 Stuck == (Diag /\ npos > 0 /\ (IF npos <= Len(EvOf(nh)) THEN After(np, EvOf(nh)[npos]) = {} ELSE ~PFinalOk(np)))
            => LET c == IF npos <= Len(EvOf(nh)) THEN EvOf(nh)[npos][1] ELSE 0
                   q == IF c \in Conns THEN np.out[c] ELSE <<>> IN
-              PrintT(<<"VF", "STUCK", nh, npos, IF q = <<>> THEN "-" ELSE Head(q).k, IF q = <<>> THEN 0 ELSE Head(q).t>>)
+              PrintT(<<"VF", "STUCK", nh, npos, IF q = <<>> THEN "-" ELSE Head(q).k, IF q = <<>> THEN 0 ELSE Head(q).t,
+                       IF c \in Conns /\ ~NoDebt(np, c) THEN 1 ELSE 0>>)
 =============================================================================
